@@ -2,6 +2,7 @@ package props
 
 import (
 	"fmt"
+	"strings"
 
 	"github.com/willabides/rjson"
 	"verifharness/eng"
@@ -89,6 +90,7 @@ func init() {
 	Replayers["C01/arena"] = f
 	Replayers["C02/arena"] = f
 	Replayers["C14/arena"] = f
+	Replayers["C11/arena"] = f
 }
 
 // arenaRefillPass: one backing array refilled in place with same-length documents; every ordered
@@ -132,6 +134,9 @@ func arenaRefillPass(r *eng.Run, id string) {
 					if id == "C01" && (oa > 1 || ob != 0) {
 						continue
 					}
+					if id == "C11" && (oa < 1 || oa > 2 || ob != 2) {
+						continue
+					}
 					for _, sameBuf := range []bool{true, false} {
 						if !sameBuf && id == "C14" {
 							continue
@@ -149,6 +154,17 @@ func arenaRefillPass(r *eng.Run, id string) {
 							got = "panic: " + pan
 						}
 						n++
+						if id == "C11" {
+							// only well-formed values are constrained: SkipValueFast must then agree with SkipValue
+							if !strings.HasSuffix(expect[j][1], " nil") || got == expect[j][1] {
+								continue
+							}
+							r.Violation(eng.Replay{Engine: "arena", Entry: ops[ob].name, Sig: fmt.Sprintf("arena-refill/%s-then-%s/buffer=%v", ops[oa].name, ops[ob].name, sameBuf),
+								History:  []string{ops[oa].name + " on arena holding " + string(vars[i]), "refill arena in place", ops[ob].name + " on arena holding " + string(vars[j])},
+								InputB64: vars[j], Expected: expect[j][1] + " (SkipValue on a private copy)", Got: got,
+								Extra: map[string]interface{}{"arena_first": string(vars[i]), "arena_second": string(vars[j]), "op1": ops[oa].name, "op2": ops[ob].name, "same_buffer": sameBuf}})
+							continue
+						}
 						if got != expect[j][ob] {
 							r.Violation(eng.Replay{Engine: "arena", Entry: ops[ob].name, Sig: fmt.Sprintf("arena-refill/%s-then-%s/buffer=%v", ops[oa].name, ops[ob].name, sameBuf),
 								History:  []string{ops[oa].name + " on arena holding " + string(vars[i]), "refill arena in place", ops[ob].name + " on arena holding " + string(vars[j])},
